@@ -340,6 +340,17 @@ FIXED_PROGRAMS = [
     "register r[2]\nsubcircuit { g r[0] }\nsubcircuit 3 { g r[0] }\nsubcircuit r { }\n",
     "register r[2]\nbranch { '0' : { g r[0] } }\n",
     "register r[2]\nloop r { g r[0] }\n",
+    "register r[2]\nmacro s a { subcircuit { g a } }\n< s r[0] | g r[1] >\n",
+    "register r[2]\nmacro s a { subcircuit { g a } }\nsubcircuit { s r[0] }\n",
+    "register r[2]\nmacro s a { subcircuit { g a } }\nmacro t a { s a }\n< t r[0] | g r[1] >\n",
+    "register r[2]\nmacro s a { subcircuit { g a } }\nmacro t a { loop 2 { s a } }\nsubcircuit { loop 2 { t r[0] } }\n",
+    "register r[2]\nmacro s a { subcircuit { g a } }\nmacro t a { < s a | g a > }\n",
+    "register r[2]\nmacro s a { subcircuit { g a } }\nmacro t a { subcircuit { s a } }\n",
+    "register r[2]\nmacro s a { subcircuit { g a } }\nmacro t a { s a }\nt r[0]\nloop 2 { t r[1] }\n{ s r[0] }\n",
+    "register r[2]\nmacro s a { g a }\nmacro t a { s a }\n< t r[0] | s r[1] >\nsubcircuit { t r[0] }\n",
+    "register r[2]\nmacro s a { loop 2 { < g a | { subcircuit { g a } } > } }\n",
+    "let t 2\nregister r[4]\nmap b r[0:t:0]\n",
+    "let t 0\nregister r[4]\nmap b r[0:2:t]\n",
     "register r[2]\nmap q r[0]\nloop q { g r[0] }\nsubcircuit q { g r[0] }\n",
     "let x 1.5\nlet n 2\nregister r[2]\nloop n { g r[0] }\nsubcircuit x { g r[0] }\n",
     "register r[2]\nmacro m a { loop a { g r[0] } }\nm 2\n",
@@ -427,6 +438,18 @@ FIXED_SX = [
 # a `usepulses` that replaces the definition an EARLIER gate statement is bound to (hand-made only)
 FIXED_SX.append(["circuit", ["usepulses", "bdm.a", "*"], REG, ["gate", "X", ["array_item", "r", _i(0)]],
                  ["usepulses", "bdm.b", "*"]])
+
+# integral / fractional floats where ints are expected (hand-made only)
+for _v in (_f(False, 2, 0), _f(False, 25, -1), _f(True, 0, 0), _f(False, 0, 0), _f(True, 1, 0)):
+    FIXED_SX.append(["circuit", ["register", "r", _v]])
+    FIXED_SX.append(["circuit", ["register", "r", _i(4)], ["map", "q", "r", _v], ["gate", "g", "q"]])
+    FIXED_SX.append(["circuit", ["register", "r", _i(4)], ["map", "a", "r", _v, None, None], ["gate", "g", ["array_item", "a", _i(0)]]])
+    FIXED_SX.append(["circuit", ["register", "r", _i(4)], ["map", "a", "r", None, _v, None]])
+    FIXED_SX.append(["circuit", ["register", "r", _i(4)], ["map", "a", "r", None, None, _v]])
+    FIXED_SX.append(["circuit", ["let", "t", _i(2)], ["register", "r", _i(4)], ["map", "a", "r", None, "t", _v]])
+    FIXED_SX.append(["circuit", ["register", "r", _i(4)], ["gate", "g", ["array_item", "r", _v]]])
+    FIXED_SX.append(["circuit", ["register", "r", _i(4)],
+                     ["macro", "m", "p", ["sequential_block", ["gate", "g", ["array_item", "p", _v]]]]])
 
 ATOMS = [None, _i(0), _i(1), _i(-1), _i(7), _f(False, 1, 0), _f(False, 5, -1), _f(True, 0, 0), "", "r", "a", "zz", "*", [], ["r"],
          ["gate", "g"], ["sequential_block"], ["let", "w", _i(1)], ["array_item", "r", _i(0)], ["register", "w", _i(1)]]
